@@ -7,6 +7,7 @@
 import RapidProofs.Contracts
 import RapidModel.Generated.Thresholds
 import RapidProofs.Reach
+import RapidProofs.ReachFloat
 
 namespace Rapid.C18
 
@@ -56,5 +57,47 @@ theorem edges_reachable (min max : UInt64) (h : min ≤ max) (fuel : Nat) :
         ((k max l r).run (.buf rest) ts).after [w, max - min] [w, max - min] toks [] false) :=
   ⟨every_range_value_reachable min max min (UInt64.le_refl _) h fuel,
    every_range_value_reachable min max max h (UInt64.le_refl _) fuel⟩
+
+/-! ### floats and small signed ranges -/
+
+/-- the table condition for the exponent draw: for every bit length `b ≤ 12` the geometric draw
+    `b + 2` is hit by a 53-bit bias word (evaluated in the kernel on the measured tables) -/
+theorem measured_tables_small_reach : smallReach Rapid.Generated.ft = true := by decide +kernel
+
+/-- both outcomes of the fair coin are produced by 53-bit words -/
+theorem coin_half_usable : 0 < Rapid.Generated.ft.coinHalf ∧ Rapid.Generated.ft.coinHalf < thrNever := by decide
+
+/-- **every value of a small signed range** `[a, b]` (fewer than 2^12 values, bounds within ±2^40)
+    is handed on by `genIntRange`, with neither overflow flag raised -/
+theorem every_small_int_reachable (a b c : Int) (hac : a ≤ c) (hcb : c ≤ b) (hsm : -2 ^ 40 ≤ a ∧ b ≤ 2 ^ 40)
+    (hw : b - a < 4096) (fuel : Nat) :
+    Reaches (fun (k : Int64 × Bool × Bool → Prog) =>
+      intRange Rapid.Generated.ft (Int64.ofInt a) (Int64.ofInt b) (fuel + 1) (fun i l r => k (i, l, r))) (Int64.ofInt c, false, false) :=
+  intRange_small_reaches _ measured_tables_small_reach coin_half_usable a b c hac hcb hsm hw fuel
+
+/-- **every float64 the range allows is produced by some bit stream**: all non-NaN bounds
+    `min ≤ max` (±0, subnormals, ±Inf included), every bit pattern `t` in `[min, max]` with the sign
+    the range admits -/
+theorem every_float64_reachable (min max t : UInt64) (hok : floatRangeOK fmt64 min max = true)
+    (ht : FloatTarget fmt64 min max t) (fuel : Nat) :
+    Reaches (floatValue Rapid.Generated.ft fmt64 min max (fuel + 1)) t :=
+  floatValue_reaches _ measured_tables_small_reach coin_half_usable fmt64 wf64 (by decide) min max t hok ht fuel
+
+/-- **every float32 likewise** -/
+theorem every_float32_reachable (min max t : UInt64) (hok : floatRangeOK fmt32 min max = true)
+    (ht : FloatTarget fmt32 min max t) (fuel : Nat) :
+    Reaches (floatValue Rapid.Generated.ft fmt32 min max (fuel + 1)) t :=
+  floatValue_reaches _ measured_tables_small_reach coin_half_usable fmt32 wf32 (by decide) min max t hok ht fuel
+
+/-- the hypotheses are satisfiable — the edges and zero of `[-1.5, 2.5]`, the bounds of
+    `[MaxFloat64, +Inf]`, a subnormal of `[0, 1]` (float32): all are targets -/
+example :
+    FloatTarget fmt64 0xBFF8000000000000 0x4004000000000000 0xBFF8000000000000 ∧
+    FloatTarget fmt64 0xBFF8000000000000 0x4004000000000000 0x4004000000000000 ∧
+    FloatTarget fmt64 0xBFF8000000000000 0x4004000000000000 0 ∧
+    FloatTarget fmt64 0xBFF8000000000000 0x4004000000000000 0x8000000000000000 ∧
+    FloatTarget fmt64 0x7FEFFFFFFFFFFFFF 0x7FF0000000000000 0x7FF0000000000000 ∧
+    FloatTarget fmt32 0 0x3F800000 1 := by
+  refine ⟨?_, ?_, ?_, ?_, ?_, ?_⟩ <;> (refine ⟨⟨by decide, by decide, by decide⟩, by decide, by decide, by decide⟩)
 
 end Rapid.C18
